@@ -109,6 +109,7 @@ func init() {
 			}
 			var d struct {
 				WF       bool            `json:"wf"`
+				WFml     bool            `json:"wf_ml"`
 				Rendered string          `json:"rendered"`
 				Eval     json.RawMessage `json:"eval"`
 			}
@@ -118,13 +119,17 @@ func init() {
 			if r.Rendered != d.Rendered {
 				return core.Disagree("Go render ≠ Lean render")
 			}
-			if !d.WF {
+			if !d.WF && !d.WFml {
 				return core.Skip("not well-formed")
 			}
 			if v := core.CrashVerdict(r.Out); v != nil {
 				return v
 			}
 			if !core.CanonEqual(r.Out, d.Eval) {
+				if !d.WF {
+					// well-formed only in the grammar at full strength: a newline inside an operator argument
+					return core.Fail("grammar:newline-in-argument", fmt.Sprintf("Substitute(%q) = %s but the grammar says %s", r.Rendered, r.Out, d.Eval))
+				}
 				return core.Fail("grammar:"+specShape(args), fmt.Sprintf("Substitute(%q) = %s but the grammar says %s", r.Rendered, r.Out, d.Eval))
 			}
 			return nil
@@ -138,10 +143,14 @@ func specShape(args json.RawMessage) string {
 	var a specArgs
 	json.Unmarshal(args, &a)
 	seen := map[string]bool{}
-	var walk func(l []seg)
-	walk = func(l []seg) {
+	var walk func(l []seg, inArg bool)
+	walk = func(l []seg, inArg bool) {
 		for _, s := range l {
 			switch {
+			case s.Lit != nil:
+				if inArg && strings.ContainsAny(*s.Lit, "{}") {
+					seen["brace-literal-in-argument"] = true
+				}
 			case s.Esc != nil:
 				seen["$$"] = true
 			case s.Var != nil && s.Braced:
@@ -150,11 +159,14 @@ func specShape(args json.RawMessage) string {
 				seen["$N"] = true
 			case s.Op != nil:
 				seen[s.O] = true
-				walk(s.Arg)
+				walk(s.Arg, true)
 			}
 		}
 	}
-	walk(a.Ast)
+	walk(a.Ast, false)
+	if seen["brace-literal-in-argument"] {
+		return "brace-literal-in-argument"
+	}
 	var ks []string
 	for _, k := range []string{"$$", "$N", "${}", ":-", "-", ":+", "+", ":?", "?"} {
 		if seen[k] {
@@ -224,7 +236,7 @@ func runC07(ctx *core.Ctx) {
 		if !inArg {
 			l = append(l, seg{Lit: str("}")}, seg{Lit: str("a\nb")}, seg{Lit: str("{")})
 		} else {
-			l = append(l, seg{Lit: str(":-")})
+			l = append(l, seg{Lit: str(":-")}, seg{Lit: str("{}")}, seg{Lit: str("{{x}}")}, seg{Lit: str("a\nb")})
 		}
 		return l
 	}
@@ -271,6 +283,7 @@ func runC07(ctx *core.Ctx) {
 	var rnd func(depth int, inArg bool) []seg
 	lits := []string{"x", " ", "lit", "a-b", ":", "?", "+", "é", "1"}
 	topLits := []string{"}", "{", "a\nb", "}}", "{}"}
+	argLits := []string{"{}", "{x}", "{{.N}}", "{\"a\":{}}", "a{b}c", "l1\nl2"}
 	rnames := []string{"A", "B", "_x1", "a", "Kf"}
 	rnd = func(depth int, inArg bool) []seg {
 		n := ctx.Rng.Intn(4)
@@ -281,6 +294,8 @@ func runC07(ctx *core.Ctx) {
 				l = append(l, seg{Lit: str(lits[ctx.Rng.Intn(len(lits))])})
 			case k == 1 && !inArg:
 				l = append(l, seg{Lit: str(topLits[ctx.Rng.Intn(len(topLits))])})
+			case k == 1 && inArg && ctx.Rng.Intn(2) == 0:
+				l = append(l, seg{Lit: str(argLits[ctx.Rng.Intn(len(argLits))])})
 			case k == 2:
 				l = append(l, seg{Esc: &tru})
 			case k == 3:
